@@ -178,6 +178,12 @@ func (ex *Executor) evalIdent(name string, env *SpecEnv) (Val, error) {
 	if v, ok := env.vars[name]; ok {
 		return v, nil
 	}
+	if name == "recv" && env.fr != nil && env.fr.fn.Signature.Recv() != nil && len(env.fr.fn.Params) > 0 {
+		// the receiver, whatever it is called (promoted-method wrappers have no source name for it)
+		if v, ok := env.fr.vals[env.fr.fn.Params[0]]; ok {
+			return v, nil
+		}
+	}
 	if env.fr != nil {
 		if l, ok := env.fr.locals[name]; ok && !l.isAddr {
 			// a variable that lives in a memory cell (named result, address-taken or captured local) always denotes
